@@ -79,7 +79,7 @@ Definition collect (inheritR fx : bool) (keys : list ckey) (ctx : option (list (
 
 (* which variant the correspondence check compares with the implementation; the
    coordinator sets it to true once the repair is committed to the repository *)
-Definition fix_inherit : bool := false.
+Definition fix_inherit : bool := true.
 
 (* what the encoders print: every level sorted by key, the last of equal keys kept *)
 Definition printed (inheritR fx : bool) (keys : list ckey) (ctx : option (list (ckey * value)))
